@@ -227,8 +227,7 @@ class Circuit:
             else:
                 name = "Circuit"
         # When grouping use unpacked circuit
-        if group:
-            circuit = circuit_copy
+        circuit = circuit_copy if group else circuit.copy()
         spec = circuit.__circuit_spec
         # Check circuit size is valid
         n_heralds = len(circuit.heralds["input"])
